@@ -74,12 +74,25 @@ def parse_stream(chunks, cfg, peer=PEER, max_requests=8, step=8192):
     p = RequestParser(cfg, src, peer)
     reqs = []
     end = None
+    overreads = []
+    parse_stream.last_overreads = overreads
     try:
         for _ in range(max_requests):
             req = next(p)
             body, err = drain(req.body, step)
             if err is None:
                 off = src.pulled - len(p.unreader.buf.getvalue())
+                # chunks the parser had to pull to see the last byte of this message; pulling more means that on a live
+                # socket it would sit in recv() waiting for bytes the message does not need
+                need = 0
+                acc = 0
+                for ci, ch in enumerate(src.chunks):
+                    acc += len(ch)
+                    if acc >= off:
+                        need = ci + 1
+                        break
+                if src.i > need:
+                    overreads.append((len(reqs), src.i - need))
             else:
                 off = None
             reqs.append((req.method, req.uri, req.version, tuple(req.headers), body,
